@@ -224,6 +224,7 @@ type Attr struct {
 	S    string
 	I    int
 	L    []int // col IN (L...) - only as a map condition
+	More *Attr // a second column in the same struct / map value (Attrs and Assign only)
 }
 
 type Op struct {
@@ -247,6 +248,11 @@ type Op struct {
 }
 
 func (a Attr) String() string {
+	if a.More != nil {
+		m := *a.More
+		a.More = nil
+		return a.String() + "+" + m.String()
+	}
 	if a.L != nil {
 		return fmt.Sprintf("%s:%s IN %v", a.Form, a.Col, a.L)
 	}
@@ -309,8 +315,13 @@ func (v variant) apply(db *gorm.DB, at int) *gorm.DB {
 	if v.pos != at {
 		return db
 	}
-	if v.kind == "session" {
+	switch v.kind {
+	case "session":
 		return db.Session(&gorm.Session{})
+	case "debug":
+		return db.Debug() // a Session with another logger level (the logger itself discards)
+	case "session-prepare":
+		return db.Session(&gorm.Session{PrepareStmt: true})
 	}
 	return db.WithContext(context.WithValue(context.Background(), ctxKey{}, "c16"))
 }
@@ -320,17 +331,51 @@ type ctxKey struct{}
 func attrArgs(a Attr, kind int) []interface{} {
 	switch a.Form {
 	case "struct":
+		if a.More != nil {
+			return []interface{}{recAttr(kind, a, *a.More).Elem().Interface()}
+		}
 		return []interface{}{recAttr(kind, a).Elem().Interface()}
 	case "map":
-		if a.Col == "age" {
-			return []interface{}{map[string]interface{}{"age": a.I}}
+		mv := map[string]interface{}{}
+		for _, x := range []*Attr{&a, a.More} {
+			if x == nil {
+				continue
+			}
+			if x.Col == "age" {
+				mv["age"] = x.I
+			} else {
+				mv[x.Col] = x.S
+			}
 		}
-		return []interface{}{map[string]interface{}{a.Col: a.S}}
+		return []interface{}{mv}
 	}
 	if a.Col == "age" {
 		return []interface{}{"age", a.I}
 	}
 	return []interface{}{a.Col, a.S}
+}
+
+// condArgs returns the condition in the given form as the argument list of Where / the finisher.
+func condArgs(conds []Attr, form string, kind int) []interface{} {
+	if !strings.HasSuffix(form, "sql") {
+		return []interface{}{condValue(conds, form, kind)}
+	}
+	var q []string
+	var args []interface{}
+	for _, c := range conds {
+		switch {
+		case c.L != nil:
+			q = append(q, c.Col+" IN ?")
+			args = append(args, append([]int(nil), c.L...))
+		case c.Col == "age":
+			q = append(q, "age = ?")
+			args = append(args, c.I)
+		default:
+			q = append(q, c.Col+" = ?")
+			args = append(args, c.S)
+		}
+	}
+	return append([]interface{}{strings.Join(q, " AND ")}, args...)
 }
 
 func condValue(conds []Attr, form string, kind int) interface{} {
@@ -457,11 +502,11 @@ func run(d *testdb.DB, kind int, o Op, v variant) Outcome {
 			at++
 		}
 		var inline []interface{}
-		cv := condValue(o.Conds, o.CondForm, kind)
+		cv := condArgs(o.Conds, o.CondForm, kind)
 		if strings.HasPrefix(o.CondForm, "inline") {
-			inline = []interface{}{cv}
+			inline = cv
 		} else {
-			tx = v.apply(tx, at).Where(cv)
+			tx = v.apply(tx, at).Where(cv[0], cv[1:]...)
 			at++
 		}
 		if o.Attrs != nil {
@@ -653,7 +698,11 @@ func expect(m *Model, o Op) (exp Outcome) {
 		}
 		return true
 	}
-	set := func(r *Row, a Attr) {
+	var set func(r *Row, a Attr)
+	set = func(r *Row, a Attr) {
+		if a.More != nil {
+			defer set(r, *a.More)
+		}
 		r.Nulls &^= nullBit(a.Col)
 		switch a.Col {
 		case "name":
@@ -674,7 +723,7 @@ func expect(m *Model, o Op) (exp Outcome) {
 		if o.Assign != nil {
 			set(&r, *o.Assign)
 			if o.Kind == "firstorcreate" {
-				if o.Assign.Col == "code" {
+				if o.Assign.Col == "code" || (o.Assign.More != nil && o.Assign.More.Col == "code") {
 					if c := m.byCode(r.Code); c != nil && c.ID != r.ID {
 						return Outcome{Err: true}
 					}
@@ -688,7 +737,9 @@ func expect(m *Model, o Op) (exp Outcome) {
 	// not found: conditions + Attrs + Assign
 	r := Row{}
 	for _, c := range o.Conds {
-		if c.L == nil { // an IN condition is no equality: it initialises nothing
+		// an IN condition is no equality, and a condition written as SQL text is not taken apart
+		// (documented: only struct and map conditions initialise the record)
+		if c.L == nil && !strings.HasSuffix(o.CondForm, "sql") {
 			set(&r, c)
 		}
 	}
@@ -717,6 +768,20 @@ func expect(m *Model, o Op) (exp Outcome) {
 
 // ---- database plumbing ----------------------------------------------------------------------
 
+// dims are the configuration dimensions of a case: none of them may change any outcome.
+type dims struct {
+	NoReturning bool // dialector without RETURNING (keys come back through LastInsertId)
+	SkipTx      bool // Config.SkipDefaultTransaction
+	Prepare     bool // Config.PrepareStmt
+	Batch       int  // Config.CreateBatchSize
+}
+
+func (x dims) String() string {
+	return fmt.Sprintf("returning=%v skiptx=%v prepare=%v batch=%d", !x.NoReturning, x.SkipTx, x.Prepare, x.Batch)
+}
+
+var curDims dims // the case being run (one case at a time per process)
+
 var ddlCache [3][]string // CREATE statements of the recs table per model kind, captured once
 
 func nowFunc() time.Time { return testdb.FixedNow }
@@ -740,7 +805,8 @@ func openDB(kind int, m *Model) *testdb.DB {
 // included) whose AUTOINCREMENT continues after maxEver.
 func openSeeded(kind int, seed []dbRow, maxEver uint) *testdb.DB {
 	soft := kind == kSoft
-	d := testdb.Open(testdb.Options{Config: gorm.Config{NowFunc: nowFunc}})
+	d := testdb.Open(testdb.Options{NoReturning: curDims.NoReturning,
+		Config: gorm.Config{NowFunc: nowFunc, SkipDefaultTransaction: curDims.SkipTx, PrepareStmt: curDims.Prepare, CreateBatchSize: curDims.Batch}})
 	k := kind
 	if ddlCache[k] == nil {
 		// the schema comes from AutoMigrate once; later databases replay its DDL (much cheaper)
@@ -922,6 +988,20 @@ func genAttr(t *rapid.T, label string, cols []string, allowZero bool) Attr {
 	default:
 		a.S = rapid.SampledFrom([]string{"x", "y", "z"}).Draw(t, label+".s")
 	}
+	if a.Form != "kv" && len(cols) > 1 && label != "" && !strings.HasSuffix(label, ".more") && rapid.IntRange(0, 2).Draw(t, label+".two") == 0 {
+		var rest []string
+		for _, c := range cols {
+			if c != a.Col {
+				rest = append(rest, c)
+			}
+		}
+		m := genAttr(t, label+".more", rest, allowZero)
+		m.Form, m.More = a.Form, nil
+		if a.Form == "struct" && m.Col == "age" && m.I == 0 {
+			m.I = 1 // a zero struct field is "not given"
+		}
+		a.More = &m
+	}
 	return a
 }
 
@@ -977,7 +1057,7 @@ func genOp(t *rapid.T, m *Model) Op {
 			}
 		}
 	default:
-		o.CondForm = rapid.SampledFrom([]string{"struct", "map", "inline-struct", "inline-map"}).Draw(t, "condform")
+		o.CondForm = rapid.SampledFrom([]string{"struct", "map", "inline-struct", "inline-map", "sql", "inline-sql"}).Draw(t, "condform")
 		if m.Kind == kSoft {
 			o.Unscoped = rapid.IntRange(0, 2).Draw(t, "unscoped") == 0
 		}
@@ -1063,8 +1143,10 @@ func TestC16(t *testing.T) {
 			}
 			m.put(r)
 		}
+		curDims = dims{NoReturning: rapid.IntRange(0, 3).Draw(rt, "noReturning") == 0, SkipTx: rapid.IntRange(0, 3).Draw(rt, "skipTx") == 0,
+			Prepare: rapid.IntRange(0, 3).Draw(rt, "prepare") == 0, Batch: rapid.SampledFrom([]int{0, 0, 1, 2}).Draw(rt, "batch")}
 		var desc strings.Builder
-		fmt.Fprintf(&desc, "model=%s init=%v ops=", kindNames[kind], m.sorted())
+		fmt.Fprintf(&desc, "model=%s config[%s] init=%v ops=", kindNames[kind], curDims, m.sorted())
 		d := openDB(kind, m)
 		defer d.Close()
 
@@ -1212,7 +1294,10 @@ func TestC16(t *testing.T) {
 			// -- metamorphic: Session / WithContext at every chain position
 			n := chainLen(o)
 			for pos := 0; pos <= n; pos++ {
-				for _, vkind := range []string{"session", "ctx"} {
+				for _, vkind := range []string{"session", "ctx", "debug", "session-prepare"} {
+					if (vkind == "debug" || vkind == "session-prepare") && (pos+i)%3 != 0 {
+						continue // the two extra kinds at every third position only (cost)
+					}
 					vd := openSeeded(kind, preRaw, preSeq)
 					vgot := run(vd, kind, o, variant{pos: pos, kind: vkind})
 					vrows, vfull := dump(vd, kind)
@@ -1238,6 +1323,18 @@ func TestC16(t *testing.T) {
 		}
 		sort.Strings(cl)
 		cl = append(cl, "model:"+kindNames[kind])
+		if curDims.NoReturning {
+			cl = append(cl, "config:no-returning")
+		}
+		if curDims.SkipTx {
+			cl = append(cl, "config:skip-default-transaction")
+		}
+		if curDims.Prepare {
+			cl = append(cl, "config:prepare-stmt")
+		}
+		if curDims.Batch > 0 {
+			cl = append(cl, "config:create-batch-size")
+		}
 		evid.Case(desc.String(), collision && midVariant, nil, cl...)
 	})
 }
@@ -1246,6 +1343,7 @@ func TestC16(t *testing.T) {
 
 // Where(..).Attrs(..).WithContext(ctx).FirstOrInit used to drop the Attrs.
 func TestC16WitnessAttrsAfterSession(t *testing.T) {
+	curDims = dims{}
 	m := &Model{Rows: map[uint]Row{}}
 	for _, vkind := range []string{"session", "ctx"} {
 		for _, k := range []string{"firstorinit", "firstorcreate"} {
